@@ -32,6 +32,7 @@ func main() {
 	points := flag.String("points", "", "comma-separated function names to add yield points to")
 	nogo := flag.Bool("nogo", false, "do not rewrite go statements")
 	nosync := flag.Bool("nosync", false, "do not redirect the sync and sync/atomic imports")
+	submit := flag.Bool("submit", false, "rewrite X.Submit(f) worker-pool calls into xsched.SubmitTask(label, f)")
 	flag.Parse()
 	fset := token.NewFileSet()
 	f, err := parser.ParseFile(fset, *in, nil, parser.ParseComments)
@@ -201,6 +202,25 @@ func main() {
 		}
 
 		return out
+	}
+
+	if *submit {
+		// 4. worker-pool submissions become schedulable tasks.
+		ast.Inspect(f, func(n ast.Node) bool {
+			call, ok := n.(*ast.CallExpr)
+			if !ok || len(call.Args) != 1 {
+				return true
+			}
+			se, ok := call.Fun.(*ast.SelectorExpr)
+			if !ok || se.Sel.Name != "Submit" {
+				return true
+			}
+			needSched = true
+			call.Args = []ast.Expr{label(call.Pos()), call.Args[0]}
+			call.Fun = sel("SubmitTask")
+
+			return true
+		})
 	}
 
 	for _, d := range f.Decls {
